@@ -10,14 +10,14 @@ scenario does not depend on it, and ONLY the well-formedness obligations are ass
   numeric     unit norm of vectors, unit trace and Hermiticity of density matrices, for ALL contents (solver obligations)
 Because every scenario starts from arbitrary symbolic contents of a well-formed layout, the one-step results compose to
 histories of any length over the layouts in the bound.  NOT decided: positive semidefiniteness (for-all positivity of
-degree >= 4 forms is outside what z3 / cvc5 do in budget) and Matrix->Vector contraction (eigh, cut)."""
+degree >= 4 forms is outside what z3 / cvc5 do in budget) and Matrix->Vector contraction of symbolic matrices (eigh, cut; concrete matrices are contracted numerically)."""
 ASSUMPTIONS = [
     "only the well-formedness obligations (kinds: normalisation, hermiticity, structural WFError) of the re-run scenarios are "
     "asserted here; their state-map obligations belong to C01..C10",
     "positive semidefiniteness is NOT decided; eigh-based contraction is cut",
     "unit norm / trace is asserted after an operation only for unitary or renormalising operation types (property statement)",
 ]
-BOUNDS = {"quick": "every 3rd..6th structural case of C01, C03, C06, C05, C09, C10, C02 (quick tiers), contraction off and on",
+BOUNDS = {"quick": "every 3rd..6th structural case of C01, C03, C06, C05, C09, C10, C02 (quick tiers), contraction off and on; the concrete contraction cases of C08",
           "thorough": "every 2nd case"}
 OPTS = {"quick": {"max_paths": 160, "timeout_ms": 10000, "case_timeout_s": 900, "exact_close": True},
         "thorough": {"max_paths": 128, "timeout_ms": 30000, "case_timeout_s": 1800, "exact_close": True}}
@@ -35,6 +35,15 @@ def cases(tier):
     import importlib
 
     out = []
+    # contraction of concrete pure / mixed density matrices at every container (goes through the numeric eigh): the level tags
+    # of the container AND of its members after contract(), shapes and normalisation
+    from harness import C08
+
+    for c in C08.cases("quick"):
+        if c.get("what") == "concrete":
+            d = dict(c)
+            d["id"], d["src"] = f"C08/{c['id']}", "C08"
+            out.append(d)
     for src, stride in SOURCES:
         if tier == "thorough":
             stride = 2
